@@ -10,6 +10,7 @@ package c02
 import (
 	"fmt"
 	"runtime/debug"
+	"sort"
 	"strings"
 	"testing"
 
@@ -95,7 +96,7 @@ func (c *checker) evaluate(p *planned, devs []Deviation, full bool) (*evaluation
 		ev.verdicts = []verdict{{Clause: clJSON, Site: "renderer returned an error instead of a response", Detail: ev.r.Err.Error() + "; bytes written: " + clip(string(ev.r.Out), 200)}}
 		return ev, nil
 	}
-	ev.j = judge(p.tree, payload, ev.r.Out, ev.notJudged != "")
+	ev.j = judge(p.tree, payload, ev.r.Out, ev.notJudged != "", strings.HasPrefix(p.shape.Opt, "vc"))
 	ev.verdicts = ev.j.verdicts
 	return ev, nil
 }
@@ -132,6 +133,9 @@ func singleCases(_ Shape, sg []Deviation) [][]Deviation {
 // slicePairs: the sibling slice of the two-deviation space (see TestCheck).
 func slicePairs(s Shape, sg []Deviation) [][]Deviation {
 	var out [][]Deviation
+	if s.Opt != "" || s.Named == "TC" {
+		return nil // the option variants and the type-condition family are single-deviation spaces
+	}
 	for _, d1 := range sg {
 		if !d1.underField(s) || !sliceKinds[d1.Kind] {
 			continue
@@ -236,7 +240,7 @@ func (c *checker) report(orig Case, v verdict) {
 func (c *checker) detail(cs Case, clause, site string, orig Case) string {
 	p := c.b.plan(cs.Shape)
 	var b strings.Builder
-	fmt.Fprintf(&b, "shape: %s\nschema: %s\nquery: %s\n", cs.Shape, strings.ReplaceAll(strings.TrimSpace(p.sdl[strings.Index(p.sdl, "type O"):]), "\n", " "), p.query)
+	fmt.Fprintf(&b, "shape: %s\nschema: %s\nquery: %s\n", cs.Shape, strings.ReplaceAll(strings.TrimSpace(p.sdl[max(0, strings.Index(p.sdl, "type O")):]), "\n", " "), p.query)
 	ev, err := c.evaluate(p, cs.Devs, false)
 	if err != nil {
 		return b.String() + "cannot re-run: " + err.Error()
@@ -393,6 +397,16 @@ func (c *checker) runCase(p *planned, cs Case) {
 	}
 }
 
+// orderedShapes: the whole shape space in canonical order: by list depth first
+// (all families), then grid, plans without PossibleTypes, type-condition family,
+// option variants. The shrunk representative of a defect is searched in this
+// order, so a defect of a late family is still found among small shapes.
+func orderedShapes() []Shape {
+	all := append(allShapes(maxListDepth), extraShapes(maxListDepth)...)
+	sort.SliceStable(all, func(i, j int) bool { return strings.Count(all[i].Wrap, "[") < strings.Count(all[j].Wrap, "[") })
+	return all
+}
+
 func TestCheck(t *testing.T) {
 	run := vk.Start("C02", "exploration")
 	defer run.Finish()
@@ -401,7 +415,7 @@ func TestCheck(t *testing.T) {
 	if err != nil {
 		t.Fatal(err)
 	}
-	c := &checker{run: run, b: b, shapes: allShapes(maxListDepth), scan1: &scan{cases: singleCases, index: map[[2]string]*Case{}}, scan2: &scan{cases: slicePairs, index: map[[2]string]*Case{}}, bases: map[Shape]map[string]any{}, single: map[Shape][]Deviation{}, sampled: map[string]bool{}, reported: map[[3]string]*vk.Violation{}}
+	c := &checker{run: run, b: b, shapes: orderedShapes(), scan1: &scan{cases: singleCases, index: map[[2]string]*Case{}}, scan2: &scan{cases: slicePairs, index: map[[2]string]*Case{}}, bases: map[Shape]map[string]any{}, single: map[Shape][]Deviation{}, sampled: map[string]bool{}, reported: map[[3]string]*vk.Violation{}}
 
 	if run.Replay != "" {
 		var cs Case
@@ -425,7 +439,7 @@ func TestCheck(t *testing.T) {
 	}
 
 	maxDev := vk.Pick(run, 1, 2)
-	run.Rule("every response shape (12 named types incl. an interface with ONE implementer and a union with ONE member x 14 list/non-null wrappings up to list depth 2 x 6 parent contexts (root, nullable / non-null object, [Obj], [Obj!]!, and a list of a union whose members are selected through `... on Interface`, which makes postprocess duplicate the field subtree with Node.Copy) x 2-3 selection variants; the field under test always has a sibling k: String rendered before it and z: String! rendered after it) is planned by the real planner; for each shape the well-typed baseline payload and every payload with <= max_deviations deviations at pairwise independent positions (every position of the baseline x the whole menu of that position, which includes the escaping alphabet at every position that renders subgraph text: String, ID, custom scalar, enum, __typename, and - as wrong kind, echoed in the error message - Int, Float, Boolean) is rendered by the real Resolvable and judged by R5; escaping deviations are single deviations in both tiers; the quick tier adds the sibling slice of the two-deviation space; the shapes that select __typename on a concrete object are additionally run with the same real plan stripped of PossibleTypes (what Object.Copy yields) x the string deviations of __typename; distinct = distinct (number and kind of raises, where each was caught relative to the nearest nullable ancestor, data:null, number of errors, failed clauses)")
+	run.Rule("every response shape (12 named types incl. an interface with ONE implementer and a union with ONE member x 14 list/non-null wrappings up to list depth 2 x 6 parent contexts (root, nullable / non-null object, [Obj], [Obj!]!, and a list of a union whose members are selected through `... on Interface`, which makes postprocess duplicate the field subtree with Node.Copy) x 2-3 selection variants; the field under test always has a sibling k: String rendered before it and z: String! rendered after it) is planned by the real planner; for each shape the well-typed baseline payload and every payload with <= max_deviations deviations at pairwise independent positions (every position of the baseline x the whole menu of that position, which includes the escaping alphabet at every position that renders subgraph text: String, ID, custom scalar, enum, __typename, and - as wrong kind, echoed in the error message - Int, Float, Boolean) is rendered by the real Resolvable and judged by R5; escaping deviations are single deviations in both tiers; the quick tier adds the sibling slice of the two-deviation space; the shapes that select __typename on a concrete object are additionally run with the same real plan stripped of PossibleTypes (what Object.Copy yields) x the string deviations of __typename; two further families, single-deviation spaces in quick: (a) type conditions - nested abstract objects home{pet{owner{age}}} whose leaf `age` (Int / Int!) sits under every combination of own condition {none, ... on Person} x ancestor conditions {none, ... on Dog, ... on House + ... on Dog}, always next to an unconditional twin so that the real postprocess mergeFields gives the leaf OnTypeNames and/or 1-2 layers of ParentOnTypeNames, one shape per combination of matching / non-matching runtime types, judged by a CollectFields over the selection set itself; (b) the grid shapes of enum (and String, interface, Float as controls) rendered with ApolloCompatibilityValueCompletionInExtensions (and TruncateFloatValues), where a replacement may be reported in extensions.valueCompletion instead of errors; distinct = distinct (number and kind of raises, where each was caught relative to the nearest nullable ancestor, data:null, number of errors, failed clauses)")
 	run.Assume(
 		"the single subgraph's `data` is merged unchanged into the response tree (Init(ctx, payload) == what the loader does for one root fetch) - checked, not trusted: every case is also run through Resolver.ResolveGraphQLResponse with an http.RoundTripper subgraph answering {\"data\":payload} and must give byte-identical output or the same panic (counter cross_checked_with_public_path, seam_difference)",
 		"strictness table: custom scalar accepts any JSON; ID string or integer; Float any number; Int any integral number; Boolean, String, enum exact; an @inaccessible enum value is not a value of the client schema",
@@ -435,7 +449,8 @@ func TestCheck(t *testing.T) {
 		"an abstract position with exactly one possible type (interface with one implementer, union with one member) needs a __typename naming that type, exactly like one with two possible types",
 		"escaping: the subgraph body is valid JSON with escapes; the response must be strict JSON without duplicate keys and the DECODED value at each position must equal the decoded payload value (or be nulled with an error); subgraph `errors` / `extensions` pass-through is not part of this check",
 		"the public path cross-check runs with a never-matching RenameTypeNames rule, the narrow seam without rules",
-		"no Apollo compatibility flags, no authorizer, no field renderer, no @defer, no aliases, no arguments",
+		"in the value completion mode `extensions` may hold exactly {valueCompletion: [...]}; its entries count like entries of `errors` (path requirement, path shape, none for well-typed data)",
+		"Apollo compatibility flags only as listed in resolvable_option_variants; SuppressFetchErrors and ReplaceInvalidVarError do not touch rendering, no authorizer, no field renderer, no @defer, no aliases, no arguments",
 	)
 	run.Bound("max_deviations", maxDev)
 	run.Bound("max_list_depth", maxListDepth)
@@ -444,6 +459,8 @@ func TestCheck(t *testing.T) {
 	run.Bound("parent_contexts", contexts)
 	run.Bound("shapes", len(c.shapes))
 	run.Bound("escaping_alphabet", []string{`a"b`, `a\b`, "a\\n\\t\\rb", "a\\u0001\\u0000\\u001fb", "multi-byte UTF-8 incl. 4-byte, U+2028, <&>", `","k":"x","a":"x",... (looks like JSON structure)`})
+	run.Bound("type_condition_shapes", len(tcShapes()))
+	run.Bound("resolvable_option_variants", []string{"defaults (all shapes)", "vc = ApolloCompatibilityValueCompletionInExtensions (E, String, I)", "vc+tf = vc + ApolloCompatibilityTruncateFloatValues (Float)"})
 	run.Bound("siblings", "k: String before, z: String! after the field under test")
 	if maxDev < 2 {
 		run.Bound("quick_sibling_slice", "pairs {null, one wrong kind per node kind} at/below the field under test x {null, number-for-string} at z and number-for-string at k, for the siblings of the same and of later list elements")
